@@ -484,6 +484,34 @@ def check(run):
         if out:
             run.ok('D2', f'boc: {name}', f'{len(raw)}-byte input: {out} after {it.iterations} loop iterations in total')
         run.evaluations += 1
+    # the text front end: a bag handed over as a hexadecimal or base64 text.  Malformed text (wrong number of characters, missing
+    # padding, foreign characters) must be answered - accepted or refused - within the same bound; a retry loop that cannot end is the defect
+    import base64 as _b64
+    b64 = _b64.b64encode(base).decode()
+    texts = [('base64 text', b64), ('hexadecimal text', base.hex()), ('upper-case hexadecimal text', base.hex().upper()),
+             ('base64 text without its padding', b64.rstrip('=')), ('base64 text with one character too many', b64.rstrip('=') + 'A'),
+             ('5 base64 characters (1 modulo 4)', 'AAAAA'), ('1 base64 character', 'A'), ('url-safe base64 text', _b64.urlsafe_b64encode(base).decode()),
+             ('characters outside every alphabet', '!!!!'), ('empty text', ''), ('white space', ' \n'), ('odd number of hexadecimal digits', 'abc'),
+             ('padding only', '===='), ('base64 text with padding in the middle', b64[:4] + '=' + b64[4:])]
+    for name, text in texts:
+        limit = 8 * len(text) + 64
+        for entry in (('Cell', 'from_boc'), ('Boc', 'from_base64')):
+            if prog.method(entry[0], entry[1], required=False) is None:
+                continue
+            it = BoundedInterp(prog, limit)
+            try:
+                it.call(it.getattr(prog.cls(entry[0]), entry[1]), [K(text)], {})
+                out = 'returned'
+            except RaiseEx as e:
+                out = f'raised {e.kind}'
+            except WorkExceeded as e:
+                out = None
+                run.fail('D2', f'{entry[0]}.{entry[1]}[text input]', f'{name} ({len(text)} characters): {e}', prog.where(prog.method('Boc', '__init__')), witness=dict(text=text))
+            except Fail as e:
+                raise AnalysisError(f'BoC text scenario {name}: {e}')
+            if out:
+                run.ok('D2', f'boc text: {name} via {entry[0]}.{entry[1]}', f'{len(text)} characters: {out} after {it.iterations} loop iterations in total')
+            run.evaluations += 1
     # TL
     from .C14 import build_schemas, mk as mk14
     lines = [('x', 'test.vi items:(vector int) tail:int = test.Vi;'), ('x', 'test.vo items:(vector test.sub) = test.Vo;'), ('x', 'test.sub a:int = test.Sub;'),
